@@ -434,7 +434,7 @@ static void
 double64_peak_update	(SF_PRIVATE *psf, const double *buffer, int count, sf_count_t indx)
 {	int 	chan ;
 	int		k, position ;
-	float	fmaxval ;
+	double	fmaxval ;
 
 	for (chan = 0 ; chan < psf->sf.channels ; chan++)
 	{	fmaxval = fabs (buffer [chan]) ;
@@ -683,6 +683,10 @@ host_write_s2d	(SF_PRIVATE *psf, const short *ptr, sf_count_t len)
 	scale = (psf->scale_int_float == 0) ? 1.0 : 1.0 / 0x8000 ;
 	bufferlen = ARRAY_LEN (ubuf.dbuf) ;
 
+	/* Keep the chunks frame aligned, the peak update indexes channels from the chunk start. */
+	if (psf->peak_info && bufferlen > psf->sf.channels)
+		bufferlen -= bufferlen % psf->sf.channels ;
+
 	while (len > 0)
 	{	if (len < bufferlen)
 			bufferlen = (int) len ;
@@ -715,6 +719,10 @@ host_write_i2d	(SF_PRIVATE *psf, const int *ptr, sf_count_t len)
 	scale = (psf->scale_int_float == 0) ? 1.0 : 1.0 / (8.0 * 0x10000000) ;
 	bufferlen = ARRAY_LEN (ubuf.dbuf) ;
 
+	/* Keep the chunks frame aligned, the peak update indexes channels from the chunk start. */
+	if (psf->peak_info && bufferlen > psf->sf.channels)
+		bufferlen -= bufferlen % psf->sf.channels ;
+
 	while (len > 0)
 	{	if (len < bufferlen)
 			bufferlen = (int) len ;
@@ -743,6 +751,10 @@ host_write_f2d	(SF_PRIVATE *psf, const float *ptr, sf_count_t len)
 	sf_count_t	total = 0 ;
 
 	bufferlen = ARRAY_LEN (ubuf.dbuf) ;
+
+	/* Keep the chunks frame aligned, the peak update indexes channels from the chunk start. */
+	if (psf->peak_info && bufferlen > psf->sf.channels)
+		bufferlen -= bufferlen % psf->sf.channels ;
 
 	while (len > 0)
 	{	if (len < bufferlen)
@@ -927,6 +939,10 @@ replace_write_s2d	(SF_PRIVATE *psf, const short *ptr, sf_count_t len)
 	scale = (psf->scale_int_float == 0) ? 1.0 : 1.0 / 0x8000 ;
 	bufferlen = ARRAY_LEN (ubuf.dbuf) ;
 
+	/* Keep the chunks frame aligned, the peak update indexes channels from the chunk start. */
+	if (psf->peak_info && bufferlen > psf->sf.channels)
+		bufferlen -= bufferlen % psf->sf.channels ;
+
 	while (len > 0)
 	{	if (len < bufferlen)
 			bufferlen = (int) len ;
@@ -959,6 +975,10 @@ replace_write_i2d	(SF_PRIVATE *psf, const int *ptr, sf_count_t len)
 
 	scale = (psf->scale_int_float == 0) ? 1.0 : 1.0 / (8.0 * 0x10000000) ;
 	bufferlen = ARRAY_LEN (ubuf.dbuf) ;
+
+	/* Keep the chunks frame aligned, the peak update indexes channels from the chunk start. */
+	if (psf->peak_info && bufferlen > psf->sf.channels)
+		bufferlen -= bufferlen % psf->sf.channels ;
 
 	while (len > 0)
 	{	if (len < bufferlen)
